@@ -24,7 +24,7 @@ ASSUMPTIONS = ['exact arithmetic: entries and scalars are small integers / dyadi
                'space.element(v) of a foreign element or ndarray is modelled as a copy (NumPy may share memory)',
                'flat real tensor spaces only in the Coq model; product spaces, complex dtypes, discretized '
                'spaces and all other leaf classes are covered by probes (measured contract), not by the model']
-TRUSTED = ['translate/call_bodies.py (Python ast -> C03/Syntax.v terms), fail-closed',
+TRUSTED = ['translate/call_bodies.py (Python ast -> C03/Syntax.v terms), fail-closed (incl.: a body that writes to x)',
            'C03/Model.v interpreter of the body language and hand-written model of LinearSpace arithmetic '
            '(lincomb regimes, multiply, copy), validated by the correspondence',
            'harness/c03.py tree generator and constructor-recipe registry']
@@ -847,7 +847,17 @@ LEVEL_NOTE = ('Trusted: translate/call_bodies.py (fail-closed ast grammar) and t
               'conditions are necessary. The link between the executed instance (option Q) and the proved one (option R) is '
               'proved (Transfer.v), and the hand-written protocol functions are proved equal to interpreters of the '
               'statement lists regenerated from Operator.__call__/__new__/bridges. N-d shapes and memory layout of '
-              'elements exist only in the probes (6 shape configurations, non-C-contiguous out/x). Axioms: classical '
+              'elements exist only in the probes (8 shape / precision configurations incl. float32, non-C-contiguous '
+              'out/x). ROUNDING is invisible to the model: in exact arithmetic `x += h; ...; x -= h` restores x, so the '
+              'translator rejects every body that writes to x, and `x bit-for-bit unchanged` is measured by the probes: '
+              'tobytes() comparison for x passed as element / matching ndarray handed over directly / nested list, with '
+              'nice, full-mantissa, tiny, huge and mixed-magnitude entries, for every recipe incl. all methods x step '
+              'lengths (dyadic and not) of NumericalGradient / NumericalDerivative and the finite-difference gradient of '
+              'every functional. Call HISTORIES on one operator object (a previous result fed back as input, out of place '
+              'and in place, compared with a fresh operator object) run for every recipe, for every scratch option '
+              '(tmp, tmp_ran, tmp_dom; view-returning operands; derived adjoint / derivative / inverse) and for random '
+              'expressions with user temporaries; search() runs more of them when an obligation breaks. That a result '
+              'may share memory with x or with a user temporary is not a violation and only recorded. Axioms: classical '
               'reals + funext as printed.')
 TECHNIQUE = ('Coq: heap semantics over a poisoned carrier, symbolic execution of source-regenerated `_call` bodies, '
              'structural induction over operator trees; in-Coq differential correspondence; introspection-driven probes')
@@ -1450,7 +1460,7 @@ class _Recipes(object):
                 add('%s.convex_conj.proximal(%s)' % (name, sig), (lambda mk=mk, sig=sig: mk().convex_conj.proximal(sig)),
                     'prob' if name in posfun else 'any')
             # non-dyadic step sizes (labels starting with '~' run in the thorough tier only)
-            for sig in (0.3, 0.02):
+            for sig in ((0.3,) if self.rdt == 'float32' else (0.3, 0.02)):   # exp(x / 0.02) overflows float32
                 add('~%s.proximal(%s)' % (name, sig), (lambda mk=mk, sig=sig: mk().proximal(sig)), kind)
                 add('~%s.convex_conj.proximal(%s)' % (name, sig), (lambda mk=mk, sig=sig: mk().convex_conj.proximal(sig)),
                     'prob' if name in posfun else 'any')
@@ -1546,7 +1556,8 @@ def probe_operator(op, kind, rng, cls, label, sizeclass, setup, rebuild=None):
 
     def P(ok, clause, what, detail=None):
         # memory-layout clauses are keyed without the size configuration (the same 1-d recipes recur in every one)
-        key = ('%s:%s' % (cls, clause)) if '-layout-' in clause else '%s:%s:%s' % (cls, clause, sizeclass)
+        key = ('%s:%s' % (cls, clause)) if ('-layout-' in clause or clause == 'zero-input') \
+            else '%s:%s:%s' % (cls, clause, sizeclass)
         res.append(C.Probe(bool(ok), key, '%s %s: %s' % (tag, sizeclass, what), _snippet(setup, clause), detail))
 
     dom, ran = op.domain, op.range
@@ -1662,6 +1673,25 @@ def probe_operator(op, kind, rng, cls, label, sizeclass, setup, rebuild=None):
                   'out of the same shape from another space raises OpRangeError; neither x nor out touched')
             except Exception as e:      # noqa
                 P(False, 'reject-range-sameshape', 'foreign out raised %s instead of OpRangeError' % type(e).__name__)
+    if not scalar_dom and kind == 'any':
+        # the zero element: a linear operator maps it to zero; any operator either refuses it with a domain-type
+        # error or returns an element of the range (an OpRangeError is `result not in range`)
+        z = dom.zero()
+        zb = _flat(z).tobytes()
+        try:
+            rz = op(z)
+            okz = (rz in ran) and _flat(z).tobytes() == zb
+            if okz and op.is_linear and not functional:
+                okz = not np.any(_flat(rz))
+            if okz and not functional:
+                yz = _poison(ran)
+                okz = op(z, out=yz) is yz and _close(_flat(yz), _flat(rz), equal_nan=True)
+            P(okz, 'zero-input', 'op(0) is in the range (0 for a linear operator), op(0, out=y) agrees, input unchanged')
+        except OpRangeError as e:
+            P(False, 'zero-input', 'op(0) raised OpRangeError: %s' % str(e)[:100])
+        except Exception as e:      # noqa
+            if op.is_linear:
+                P(False, 'zero-input', 'linear operator: op(0) raised %s: %s' % (type(e).__name__, str(e)[:100]))
     if not scalar_dom:
         _probe_inputs(op, kind, rng, x, P)
         if not functional and rebuild is not None:
@@ -1775,6 +1805,11 @@ def _probe_inputs(op, kind, rng, x, P):
             vref = np.array([ref]) if functional else np.array(_flat(ref), copy=True)
             scale = max([1e-300] + [float(np.max(np.abs(t))) for t in (_flat(xv), vref)
                                     if t.size and np.all(np.isfinite(t))])
+            # overflow (inf / inf - inf) at badly scaled inputs: no claim about values, only about x
+            finite = bool(np.all(np.isfinite(vref)))
+
+            def agree(a_, b_):
+                return (not finite) or _close(a_, b_, equal_nan=True, scale=scale)
             if vlab != 'nice':
                 P(_flat(xv).tobytes() == xb, 'x-changed-%s' % vlab,
                   'x (%s entries) bit-for-bit unchanged by op(x)' % vlab,
@@ -1783,7 +1818,7 @@ def _probe_inputs(op, kind, rng, x, P):
                     y = _poison(ran)
                     try:
                         r = op(xv, out=y)
-                        P(r is y and _close(_flat(y), vref, equal_nan=True, scale=scale) and _flat(xv).tobytes() == xb,
+                        P(r is y and agree(_flat(y), vref) and _flat(xv).tobytes() == xb,
                           'ip-%s' % vlab, 'op(x, out=y) with %s entries returns y holding the values of op(x), x '
                           'bit-for-bit unchanged' % vlab, {'oop': vref[:6].tolist(), 'ip': _flat(y)[:6].tolist()})
                     except Exception as e:      # noqa
@@ -1803,7 +1838,7 @@ def _probe_inputs(op, kind, rng, x, P):
                     r = op(obj)
                     vr = np.array([r]) if functional else _flat(r)
                     same = [w.tobytes() for w in watch] + [repr(obj)] == before
-                    ok = same and _close(vr, vref, equal_nan=True, scale=scale)
+                    ok = same and agree(vr, vref)
                     what = ('op(a) with a = the entries of x as %s (%s entries): a bit-for-bit unchanged and the '
                             'values of op(x)' % (how, vlab))
                     detail = {'input_unchanged': same, 'oop_element': vref[:6].tolist(), 'oop_raw': vr[:6].tolist()}
@@ -1811,7 +1846,7 @@ def _probe_inputs(op, kind, rng, x, P):
                         y = _poison(ran)
                         r = op(obj, out=y)
                         same = [w.tobytes() for w in watch] + [repr(obj)] == before
-                        ok = same and r is y and _close(_flat(y), vref, equal_nan=True, scale=scale)
+                        ok = same and r is y and agree(_flat(y), vref)
                         what = ('op(a, out=y) with a = the entries of x as %s (%s entries): a bit-for-bit unchanged, '
                                 'y holds the values of op(x)' % (how, vlab))
                         detail = {'input_unchanged': same, 'oop_element': vref[:6].tolist(), 'ip_raw': _flat(y)[:6].tolist()}
@@ -1850,8 +1885,9 @@ def _probe_history(op, rebuild, kind, rng, P):
             fresh = rebuild()
             for mode in ('oop', 'ip'):
                 x1 = op(x0)
-                if x1 not in dom or not _in_kind(x1, kind):
-                    return              # the result is no admissible input of this operator (e.g. log of x <= 0)
+                if x1 not in dom or not _in_kind(x1, kind) or not np.any(_flat(x1)):
+                    return              # the result is no admissible input of this operator (e.g. log of x <= 0);
+                    #                     the zero element has its own clause (zero-input)
                 keep = x1.copy()
                 x1b = _flat(x1).tobytes()
                 want = np.array(_flat(fresh(keep)), copy=True)
